@@ -295,6 +295,14 @@ int main(int argc, char** argv){ vr::parse(argc, argv);
   }
   if (x <= y && conv(x) > conv(y)) REPRODUCED("not monotone: conv(%Lg)=%Lg > conv(%Lg)=%Lg", (long double)x, (long double)conv(x), (long double)y, (long double)conv(y));
   if (ROUNDTRIP && back(conv(x)) != x) REPRODUCED("round trip: %Lg -> %Lg -> %Lg", (long double)x, (long double)conv(x), (long double)back(conv(x)));
+  if (!vr::has("src")) {   // window run (extraction-break fallback): the any-source -> float32_t / float64_t converters are shared by every source type, incl. floating sources
+    for (int i = 0; i <= 4096; i++) { double v = i / 4096.0; float r = channel_convert<float32_t>(float64_t(v));
+      if (std::fabs((double)r - v) > 1.2e-7) REPRODUCED("channel_convert<float32_t>(float64_t(%.17g)) = %.9g, not within float32 precision of the linear map", v, (double)r); }
+    const int steps = 4099; sb prev = (sb)slo;
+    for (int i = 0; i <= steps; i++) { sb v = (sb)(slo + (shi - slo) * i / steps); long double r = conv(v);
+      long double err = std::fabs((r - dlo) * (shi - slo) - ((long double)v - slo) * (dhi - dlo)), unit = (shi - slo);
+      if (r < dlo || r > dhi || (std::is_floating_point<db>::value ? err > unit * 1.1920928955078125e-7L : err >= (fl ? unit * (1 + (dhi - dlo) * 1.1920928955078125e-7L) : unit))) REPRODUCED("channel_convert(%Lg)=%Lg is not within one destination unit of the exact linear map", (long double)v, r);
+      if (conv(prev) > conv(v)) REPRODUCED("not monotone: conv(%Lg)=%Lg > conv(%Lg)=%Lg", (long double)prev, (long double)conv(prev), (long double)v, (long double)conv(v)); prev = v; } }
   NOT_REPRODUCED("all channel_convert clauses hold at src=%Lg y=%Lg", (long double)x, (long double)y);
 }
 '''
